@@ -1,4 +1,5 @@
 //! Harness binary for the incremental-font-transfer / klippa dependency cone.
+mod c18;
 mod c19;
 mod synth;
 
@@ -6,6 +7,7 @@ fn main() {
     fvcore::quiet_panics();
     let args: Vec<String> = std::env::args().skip(1).collect();
     match args.first().map(|s| s.as_str()) {
+        Some("c18") => c18::main(&args[1..]),
         Some("c19") => c19::main(&args[1..]),
         _ => {
             eprintln!("usage: fv-ift <c17|c18|c19> ...");
